@@ -1443,4 +1443,179 @@ Proof.
   reflexivity.
 Qed.
 
+(* ---- function types: the loop over the parameters ---- *)
+Lemma pexpr_ident_t m a r : (3 <= m)%nat -> not_period r = true ->
+  pexpr m fl_typ (KIdent a :: r) = ROk (Some (XIdent 0 a), r).
+Proof.
+  intros hm hr. destruct m as [|[|[|k]]]; try lia. rewrite pexpr_S.
+  change fl_typ with (FT false false false). cbn [fl_guard ExprFull_eqs.FT].
+  change (mkfl false false true false) with (FT false false false).
+  rewrite po_ident_t by exact hr. rewrite pt_type. reflexivity.
+Qed.
+
+Definition pp_next (isr : bool) (m : nat) (acc : list param) (q' : param) (ei : option nat) (sep : tk) (r : list tk) :=
+  match sep with
+  | KComma => pplist m isr r (acc ++ [q']) ei
+  | _ => params_finish isr (acc ++ [q']) ei r
+  end.
+
+Definition is_sep (sep : tk) : Prop := sep = KComma \/ sep = KRP.
+
+Lemma sep_ender sep : is_sep sep -> ender sep = true.
+Proof. intros [-> | ->]; reflexivity. Qed.
+
+Lemma step_unnamed t pt sep r isr acc ei m : A_stmt t -> pp t = Some pt -> is_sep sep ->
+  ok true false t (Some sep) = true -> (3 <= m)%nat -> (full true t <= m)%nat ->
+  pplist (S m) isr (toks pt ++ sep :: r) acc ei = pp_next isr m acc (None, Some (norm t)) ei sep r.
+Proof.
+  intros hA hpp hsep hok hm hf. rewrite pplist_S.
+  rewrite (B_typ t hA (Some sep) pt (sep :: r) m hok hpp eq_refl hf). cbn [rbind fst snd].
+  assert (hst : pp_step acc ei (sep :: r) = (ei, sep :: r)) by (destruct hsep as [-> | ->]; reflexivity).
+  rewrite hst. cbn [fst snd]. rewrite pexpr_none by (try lia; apply sep_ender; exact hsep).
+  cbn [rbind fst snd pp_param]. unfold pp_next. destruct hsep as [-> | ->]; reflexivity.
+Qed.
+
+Lemma type_not_period t pt el nxt rest : ok true el t nxt = true -> pp t = Some pt -> not_period (toks pt ++ rest) = true.
+Proof.
+  intros hok hpp. destruct (first_tok_cons t pt hpp) as [t0 [r0 [h1 _]]]. rewrite h1. cbn [app].
+  pose proof (type_first t el nxt pt t0 r0 hok hpp h1) as h. destruct t0; try discriminate; reflexivity.
+Qed.
+
+Lemma type_not_dots t pt el nxt rest acc ei : ok true el t nxt = true -> pp t = Some pt ->
+  pp_step acc ei (toks pt ++ rest) = (ei, toks pt ++ rest).
+Proof.
+  intros hok hpp. destruct (first_tok_cons t pt hpp) as [t0 [r0 [h1 _]]]. rewrite h1. cbn [app].
+  pose proof (type_first t el nxt pt t0 r0 hok hpp h1) as h. destruct t0; try discriminate; reflexivity.
+Qed.
+
+Lemma step_named_typed a t pt sep r isr acc ei m : A_stmt t -> pp t = Some pt -> is_sep sep ->
+  ok true false t (Some sep) = true -> (3 <= m)%nat -> (full true t <= m)%nat ->
+  pplist (S m) isr (KIdent a :: toks pt ++ sep :: r) acc ei = pp_next isr m acc (Some a, Some (norm t)) ei sep r.
+Proof.
+  intros hA hpp hsep hok hm hf. rewrite pplist_S.
+  rewrite pexpr_ident_t by (try lia; apply (type_not_period t pt false (Some sep)); assumption).
+  cbn [rbind fst snd]. rewrite (type_not_dots t pt false (Some sep)) by assumption. cbn [fst snd].
+  rewrite (B_typ t hA (Some sep) pt (sep :: r) m hok hpp eq_refl hf). cbn [rbind fst snd pp_param ident_name].
+  unfold pp_next. destruct hsep as [-> | ->]; reflexivity.
+Qed.
+
+Lemma step_named_untyped a sep r isr acc ei m : is_sep sep -> (3 <= m)%nat ->
+  pplist (S m) isr (KIdent a :: sep :: r) acc ei = pp_next isr m acc (None, Some (XIdent 0 a)) ei sep r.
+Proof.
+  intros hsep hm. rewrite pplist_S.
+  rewrite pexpr_ident_t by (try lia; destruct hsep as [-> | ->]; reflexivity). cbn [rbind fst snd].
+  assert (hst : pp_step acc ei (sep :: r) = (ei, sep :: r)) by (destruct hsep as [-> | ->]; reflexivity).
+  rewrite hst. cbn [fst snd]. rewrite pexpr_none by (try lia; apply sep_ender; exact hsep).
+  cbn [rbind fst snd pp_param]. unfold pp_next. destruct hsep as [-> | ->]; reflexivity.
+Qed.
+
+Lemma step_var_unnamed t pt r isr acc m : A_stmt t -> pp t = Some pt ->
+  ok true false t (Some KRP) = true -> (3 <= m)%nat -> (full true t <= m)%nat ->
+  pplist (S m) isr (KEllipsis :: toks pt ++ KRP :: r) acc None =
+  params_finish isr (acc ++ [(None, Some (norm t))]) (Some (length acc)) r.
+Proof.
+  intros hA hpp hok hm hf. rewrite pplist_S.
+  rewrite pexpr_none by (try lia; reflexivity). cbn [rbind fst snd pp_step].
+  rewrite (B_typ t hA (Some KRP) pt (KRP :: r) m hok hpp eq_refl hf). cbn [rbind fst snd pp_param]. reflexivity.
+Qed.
+
+Lemma step_var_named a t pt r isr acc m : A_stmt t -> pp t = Some pt ->
+  ok true false t (Some KRP) = true -> (3 <= m)%nat -> (full true t <= m)%nat ->
+  pplist (S m) isr (KIdent a :: KEllipsis :: toks pt ++ KRP :: r) acc None =
+  params_finish isr (acc ++ [(Some a, Some (norm t))]) (Some (length acc)) r.
+Proof.
+  intros hA hpp hok hm hf. rewrite pplist_S.
+  rewrite pexpr_ident_t by (try lia; reflexivity). cbn [rbind fst snd pp_step].
+  rewrite (B_typ t hA (Some KRP) pt (KRP :: r) m hok hpp eq_refl hf). cbn [rbind fst snd pp_param ident_name]. reflexivity.
+Qed.
+
+Definition ppq (q : param) : option bytes * option (option (list pc)) := (fst q, omap pp (snd q)).
+
+Definition okplist (nm v : bool) : list param -> bool :=
+  fix go (l : list param) : bool :=
+    match l with
+    | [] => true
+    | (name, t) :: r =>
+      (if nm then is_some name else negb (is_some name) && is_some t) &&
+      (match t with
+       | Some t' => ok true false t' (sep_next (is_nil r) KComma KRP)
+       | None => negb (is_nil r)
+       end) &&
+      (match r with
+       | [_] => if v then is_some t else true
+       | _ => true
+       end) &&
+      go r
+    end.
+
+Definition needpl (l : list param) : nat :=
+  fold_right (fun (q : param) (a : nat) => (4 + fullo (full true) (snd q) + a)%nat) 0%nat l.
+
+Lemma seq_opt_nil {A} (l : list (option A)) : seq_opt l = Some [] -> l = [].
+Proof. destruct l as [|[a|] r]; cbn [seq_opt]; [reflexivity| |discriminate]. destruct (seq_opt r); discriminate. Qed.
+
+Lemma params_pieces_nonnil v x r : params_pieces v (x :: r) <> [].
+Proof. destruct r as [|y r]; cbn [params_pieces]; [destruct v, x as [a [t|]]; discriminate|discriminate]. Qed.
+
+Lemma params_run (nm v : bool) : forall l, Forall (fun q : param => Qo A_stmt (snd q)) l ->
+  forall ls, seq_opt (params_pieces v (map ppq l)) = Some ls -> l <> [] -> okplist nm v l = true ->
+  forall isr acc rest m, (needpl l <= m)%nat ->
+  pplist m isr (toks (sep_by comma_sp ls) ++ KRP :: rest) acc None =
+  params_finish isr (acc ++ map rawq l) (if v then Some (length acc + length l - 1)%nat else None) rest.
+Proof.
+  induction l as [|[name t] l IH]; intros hA ls hls hne hok isr acc rest m hm; [contradiction|].
+  inversion hA as [|x y hAq hAr]. subst x y. cbn [snd] in hAq.
+  cbn [okplist] in hok. apply andb_prop in hok. destruct hok as [hok hokr].
+  apply andb_prop in hok. destruct hok as [hok hsnd]. apply andb_prop in hok. destruct hok as [hshape hty].
+  cbn [needpl fold_right snd] in hm. destruct m as [|k]; [lia|].
+  destruct l as [|q2 l'].
+  - (* the last parameter *)
+    destruct t as [t|]; [|discriminate]. cbn [Qo is_nil sep_next ExprFull_base.fullo] in *.
+    destruct v; cbn [map] in hls; cbn [params_pieces] in hls; unfold ppq in hls; cbn [fst snd omap] in hls.
+    + destruct (pp t) as [pt|] eqn:ept; [|discriminate]. cbn [seq_opt] in hls. injection hls as <-.
+      cbn [sep_by map length]. replace (length acc + 1 - 1)%nat with (length acc) by lia.
+      destruct name as [a|]; norm_toks; cbn [rawq omap].
+      * apply step_var_named; try assumption; fuel.
+      * apply step_var_unnamed; try assumption; fuel.
+    + destruct name as [a|]; destruct (pp t) as [pt|] eqn:ept; cbn [param_pieces seq_opt] in hls; try discriminate;
+        injection hls as <-; cbn [sep_by map]; norm_toks; cbn [rawq omap].
+      * rewrite (step_named_typed a t pt KRP rest isr acc None k) by (try assumption; try (right; reflexivity); fuel). reflexivity.
+      * rewrite (step_unnamed t pt KRP rest isr acc None k) by (try assumption; try (right; reflexivity); fuel). reflexivity.
+  - (* not the last one *)
+    cbn [is_nil sep_next] in hty.
+    change (map ppq ((name, t) :: q2 :: l')) with (ppq (name, t) :: map ppq (q2 :: l')) in hls.
+    change (params_pieces v (ppq (name, t) :: map ppq (q2 :: l')))
+      with (param_pieces (ppq (name, t)) :: params_pieces v (map ppq (q2 :: l'))) in hls.
+    cbn [seq_opt] in hls.
+    destruct (param_pieces (ppq (name, t))) as [pq|] eqn:epq; [|discriminate].
+    destruct (seq_opt (params_pieces v (map ppq (q2 :: l')))) as [ls'|] eqn:els; [|discriminate].
+    injection hls as <-.
+    assert (hls' : ls' <> []).
+    { intros ->. apply seq_opt_nil in els. cbn [map] in els. revert els. apply params_pieces_nonnil. }
+    rewrite sep_by_cons. destruct ls' as [|q2p ls'']; [contradiction|].
+    rewrite !toks_app. change (toks comma_sp) with [KComma]. rewrite <- !app_assoc. cbn [app].
+    assert (hIH : forall acc', pplist k isr (toks (sep_by comma_sp (q2p :: ls'')) ++ KRP :: rest) acc' None =
+                    params_finish isr (acc' ++ map rawq (q2 :: l')) (if v then Some (length acc' + length (q2 :: l') - 1)%nat else None) rest).
+    { intros acc'. apply (IH hAr (q2p :: ls'') eq_refl); [discriminate|exact hokr|]. unfold needpl in *. cbn [fold_right] in *. lia. }
+    unfold ppq in epq. cbn [fst snd] in epq.
+    assert (hfin : forall q', rawq (name, t) = q' ->
+              params_finish isr ((acc ++ [q']) ++ map rawq (q2 :: l'))
+                (if v then Some (length (acc ++ [q']) + length (q2 :: l') - 1)%nat else None) rest =
+              params_finish isr (acc ++ map rawq ((name, t) :: q2 :: l'))
+                (if v then Some (length acc + length ((name, t) :: q2 :: l') - 1)%nat else None) rest).
+    { intros q' <-. rewrite <- app_assoc. cbn [app map]. rewrite app_length. cbn [length].
+      replace (length acc + 1 + S (length l') - 1)%nat with (length acc + S (S (length l')) - 1)%nat by lia. reflexivity. }
+    destruct name as [a|], t as [t|]; cbn [omap param_pieces Qo ExprFull_base.fullo] in *.
+    + destruct (pp t) as [pt|] eqn:ept; [|discriminate]. injection epq as <-. norm_toks.
+      rewrite (step_named_typed a t pt KComma _ isr acc None k) by (try assumption; try (left; reflexivity); fuel).
+      unfold pp_next. rewrite hIH. apply hfin. reflexivity.
+    + injection epq as <-. norm_toks.
+      rewrite step_named_untyped by (try (left; reflexivity); lia).
+      unfold pp_next. rewrite hIH. apply hfin. reflexivity.
+    + destruct (pp t) as [pt|] eqn:ept; [|discriminate]. injection epq as <-.
+      rewrite (step_unnamed t pt KComma _ isr acc None k) by (try assumption; try (left; reflexivity); fuel).
+      unfold pp_next. rewrite hIH. apply hfin. reflexivity.
+    + discriminate.
+Qed.
+
 End Main.
